@@ -127,6 +127,7 @@ func consFunc(cs *consState) func() (util.Hash, func(base.Address) bool, error) 
 func newHandler(rules *launch.RateLimiterRules, cs *consState) *launch.RateLimitHandler {
 	rules.SetIsInConsensusNodesFunc(consFunc(cs))
 	args := launch.NewRateLimitHandlerArgs()
+	args.ExpireAddr = time.Hour // only the MaxAddrs path of shrink evicts within a run
 	args.Rules = rules
 	h, err := launch.NewRateLimitHandler(args)
 	if err != nil {
@@ -154,6 +155,7 @@ type Op struct {
 	Cid  int    `json:"c,omitempty"`
 	Node int    `json:"n,omitempty"`
 	Nil  bool   `json:"nil,omitempty"`
+	Max  int    `json:"max,omitempty"` // shrink: MaxAddrs
 	// rule sets
 	Keyed map[int]RuleMap `json:"keyed,omitempty"` // clientid / nodes
 	Nets  []NetAdd        `json:"nets,omitempty"`
@@ -354,6 +356,7 @@ type world struct {
 	gens  map[*rate.Limiter]int  // identity of the embedded limiter
 	keep  []*rate.Limiter        // keep them alive: no pointer reuse
 	known map[int]bool           // addr has limiters
+	queue []int                  // addresses with limiters, oldest first (MaxAddrs eviction order)
 	// per (addr, handler): what the last correct decision depended on
 	decidedCid map[[2]int]int
 	decidedAt  map[[2]int]int
@@ -367,6 +370,25 @@ func newWorld() *world {
 	w.h = newHandler(w.rules, w.cs)
 	w.ref = refRules{suffrage: RuleMap{D: 15, M: map[int]int{2: 16}}, dmap: RuleMap{D: 0}}
 	return w
+}
+
+// forget: the address was removed from the pool; its limiters and its node identity are gone.
+func (w *world) forget(addr int) {
+	delete(w.known, addr)
+	delete(w.node, addr)
+	for k := range w.decidedAt {
+		if k[0] == addr {
+			delete(w.decidedAt, k)
+			delete(w.decidedCid, k)
+		}
+	}
+	q := w.queue[:0]
+	for _, a := range w.queue {
+		if a != addr {
+			q = append(q, a)
+		}
+	}
+	w.queue = q
 }
 
 func (w *world) gen(l *rate.Limiter) int {
@@ -458,6 +480,9 @@ func runStream(res *vh.Result, rp replay, verbose bool) string {
 					failc(res, "func-result-inconsistent", at+fmt.Sprintf("Func reports type %q desc %q limiter %q, the cached limiter is %+v", rr.RulesetType, rr.RulesetDesc, rr.Limiter, got), rp)
 				}
 			}
+			if !w.known[op.Addr] {
+				w.queue = append(w.queue, op.Addr)
+			}
 			w.known[op.Addr] = true
 			if got != want {
 				class := "precedence-mismatch"
@@ -499,16 +524,22 @@ func runStream(res *vh.Result, rp replay, verbose bool) string {
 			if ok != w.known[op.Addr] {
 				failc(res, "removeaddr-result", at+fmt.Sprintf("remove(addr %d)=%v want %v", op.Addr, ok, w.known[op.Addr]), rp)
 			}
-			delete(w.known, op.Addr)
-			delete(w.node, op.Addr)
-			for k := range w.decidedAt {
-				if k[0] == op.Addr {
-					delete(w.decidedAt, k)
-					delete(w.decidedCid, k)
-				}
-			}
+			w.forget(op.Addr)
 			obs = nlist(b2i(ok))
 			term = fmt.Sprintf("ORemoveAddr %s", vh.N(uint64(op.Addr)))
+		case "shrink":
+			// the pool holds more than MaxAddrs addresses: the oldest are evicted, with everything known about them
+			n := w.h.VerifShrink(context.Background(), uint64(op.Max))
+			want := 0
+			for len(w.queue) > op.Max {
+				w.forget(w.queue[0])
+				want++
+			}
+			if int(n) != want {
+				failc(res, "shrink-count", at+fmt.Sprintf("shrink with MaxAddrs %d removed %d addresses, expected %d", op.Max, n, want), rp)
+			}
+			obs = nlist(int(n))
+			term = fmt.Sprintf("OShrink %s", vh.N(uint64(op.Max)))
 		case "clientid":
 			if op.Nil {
 				_ = w.rules.SetClientIDRuleSet(nil)
@@ -718,9 +749,11 @@ func genStream(r *vh.Rand) replay {
 			}
 		case c < 60:
 			op = Op{Kind: "addnode", Addr: as[r.Intn(na)], Node: r.Intn(len(nodes))}
-		case c < 63:
+		case c < 62:
 			op = Op{Kind: "removeaddr", Addr: as[r.Intn(na)]}
-		case c < 71:
+		case c < 65:
+			op = Op{Kind: "shrink", Max: r.Intn(na + 1)}
+		case c < 72:
 			op = Op{Kind: "clientid", Nil: r.Chance(1, 6)}
 			if !op.Nil {
 				op.Keyed = map[int]RuleMap{}
@@ -791,6 +824,10 @@ func corpus() []replay {
 		// removal of the address forgets node and limiters
 		{[]Op{req(1, 0, 0), {Kind: "addnode", Addr: 1, Node: 2}, {Kind: "addnode", Addr: 1, Node: 1}, {Kind: "removeaddr", Addr: 1},
 			{Kind: "addnode", Addr: 1, Node: 1}, req(1, 0, 0), {Kind: "addnode", Addr: 1, Node: 1}, cons(1, 1), req(1, 0, 0)}},
+		// MaxAddrs eviction forgets the node identity of the evicted (oldest) address, keeps the newest
+		{[]Op{nds(map[int]RuleMap{0: rm(4, nil), 1: rm(6, nil)}), req(0, 0, 0), {Kind: "addnode", Addr: 0, Node: 0}, req(0, 0, 0),
+			req(1, 0, 0), {Kind: "addnode", Addr: 1, Node: 1}, req(2, 0, 0), {Kind: "shrink", Max: 2}, req(0, 0, 0), req(1, 0, 0),
+			{Kind: "shrink", Max: 5}, {Kind: "shrink", Max: 0}, req(1, 0, 0), {Kind: "addnode", Addr: 1, Node: 0}, req(1, 0, 0)}},
 		// nolimit / limit-all rules and switching between rules
 		{[]Op{cid(map[int]RuleMap{1: rm(13, nil), 2: rm(14, nil), 3: rm(3, nil)}), req(0, 0, 1), req(0, 0, 0), req(0, 0, 3), req(0, 0, 0), req(0, 0, 3),
 			{Kind: "reqfunc", Addr: 0, H: 0, Cid: 0}, {Kind: "reqfunc", Addr: 0, H: 0, Cid: 3}}},
